@@ -289,6 +289,13 @@ fn case_script(t: &mut Tape, st: &mut Stats) -> Verdict {
             _ => SOp::Invoke(name),
         });
     }
+    // one history in four is run as two scripts, the second on the context returned by the first (which may end
+    // with `exit`): the registry and the alias bookkeeping live in the context
+    let split: Option<usize> = if n >= 2 && t.chance(1, 4) { Some(1 + t.below(n - 1)) } else { None };
+    let first_ends_with_exit = split.is_some() && t.chance(2, 3);
+    let mut first_script = String::new();
+    let mut fns_of_first_run: HashSet<String> = HashSet::new();
+    let mut fn_names_of_first_run: HashSet<String> = HashSet::new();
     // render + model
     let mut script = String::new();
     let mut expected_vars: Vec<(String, Option<String>)> = vec![];
@@ -298,6 +305,15 @@ fn case_script(t: &mut Tape, st: &mut Stats) -> Verdict {
     let mut classes: HashSet<&'static str> = HashSet::new();
     for (i, op) in ops.iter().enumerate() {
         let out = format!("o{}", i);
+        if split == Some(i) {
+            first_script = std::mem::take(&mut script);
+            if first_ends_with_exit {
+                first_script.push_str("exit\n");
+            }
+            line = 0;
+            fns_of_first_run = m.behaviour.iter().filter(|(_, (k, _))| *k == 1).map(|(id, _)| id.clone()).collect();
+            fn_names_of_first_run = ops[..i].iter().filter_map(|o| if let SOp::Fn(n, _) = o { Some(n.clone()) } else { None }).collect();
+        }
         match op {
             SOp::Alias(n, tg) => {
                 script.push_str(&format!("{} = alias {} hz_capture {}\n", out, n, tg));
@@ -371,6 +387,10 @@ fn case_script(t: &mut Tape, st: &mut Stats) -> Verdict {
                 if !["fn", "end", "emit"].iter().all(|c| m.reg.get(c).map(|s| s.starts_with("sdk:")).unwrap_or(false)) {
                     return Verdict::Discard("a command needed by the history was removed");
                 }
+                if fn_names_of_first_run.contains(n) {
+                    // a definition record of the first run (accepted or refused) is keyed by line numbers of the first script
+                    return Verdict::Discard("name of a function definition of the first run defined again in the second run");
+                }
                 let id = format!("fn:t{}", tg);
                 if m.reg.set(n, &[], &id) {
                     m.behaviour.insert(id, (1, format!("t{}", tg)));
@@ -403,6 +423,10 @@ fn case_script(t: &mut Tape, st: &mut Stats) -> Verdict {
                             }
                         }
                         Some((_, tg)) => {
+                            if fns_of_first_run.contains(&id) {
+                                // its body lines belong to the first script
+                                return Verdict::Discard("function of the first run invoked in the second run");
+                            }
                             expected_trace.push(vec!["fnbody".into(), tg.clone()]);
                             expected_vars.push((out, None));
                             classes.insert("invocation-of-function");
@@ -428,7 +452,22 @@ fn case_script(t: &mut Tape, st: &mut Stats) -> Verdict {
         st.class(c);
     }
     hz_reset();
-    let out = run_text(&script, base, 20_000, None);
+    let out = match split {
+        None => run_text(&script, base, 20_000, None),
+        Some(_) => {
+            if first_script.is_empty() {
+                // the history stops (invocation of an undefined name) before the split was reached
+                return Verdict::Discard("history fails before the split");
+            }
+            st.class(if first_ends_with_exit { "two-runs-first-ends-with-exit" } else { "two-runs-first-reaches-its-last-line" });
+            let o1 = run_text(&first_script, base, 20_000, None);
+            match o1.result {
+                Ok(ctx) => run_text(&script, ctx, 20_000, None),
+                Err(e) => return fail("C15/script/two-runs/first-run-failed", json!({"first_script": first_script, "error": format!("{:?}", e)})),
+            }
+        }
+    };
+    let script = if split.is_some() { format!("{}# ---- second run (on the context returned by the first) ----\n{}", first_script, script) } else { script };
     let trace: Vec<Vec<String>> = with_hz(|h| {
         h.trace
             .iter()
@@ -529,7 +568,7 @@ pub fn property() -> Property {
                     Tier::Thorough => Plan::Random { cases: 3_200_000, max_len: 160 },
                 },
                 case: case_script,
-                min_classes: &[("refused-alias", 500), ("function-defined", 500), ("invocation-of-function", 300), ("remove-through-alias", 500)],
+                min_classes: &[("refused-alias", 500), ("function-defined", 500), ("invocation-of-function", 300), ("remove-through-alias", 500), ("two-runs-first-ends-with-exit", 2000)],
             },
         ],
         probes: vec![],
